@@ -146,6 +146,7 @@ def walk(ck, name, cfg, steps, membership=True, truth=False, episodes=2, idle=0.
     cfg = copy.deepcopy(cfg)
     cfg["game"]["max_episode_length"] = max(cfg["game"].get("max_episode_length", 0), steps + 2)
     del PENDING[:]
+    obstruth.set_flags_from_config(cfg)
     mon = None
     if truth:
         NmneMon.install()
